@@ -121,12 +121,31 @@ def fmt_twprge(rng, tr, style=None):
         return f"T{t}-R{r}{ew}"          # N/S missing
     if style == 7:
         return f"T{t}{ns.lower()}-R{r}{ew.lower()}"
+    if style == 10:
+        return f"T{t}-{r}{ew}"           # no 'R', N/S missing
+    if style == 11:
+        return f"{t}{ns}-R{r}"           # no 'T', E/W missing
     if style == 9:
         # OCR look-alikes in the numbers (needs ocr_scrub to be read)
         tt = str(t).replace("1", "I").replace("0", "O").replace("5", "S")
         rr = str(r).replace("1", "l").replace("0", "O")
         return f"T{tt}{ns}-R{rr}{ew}"
     return f"T{t}{ns}-R{r}{ew}, 5th P.M."
+
+
+# other spellings on which the same setting makes a difference
+WITNESS_ALT = {
+    "default_ns": ["T154-97W Sec 14: NE/4, Lots 1, 1",
+                   "T154-R97W Sec 14: NE/4\nT155-98E Sec 1: W/2"],
+    "default_ew": ["154N-R97 Sec 14: NE/4\nSec 15: W/2",
+                   "T154N-R97 Sec 14: NE/4, 155S-R98 Sec 1: W/2"],
+}
+
+
+def witness(rng, table, name):
+    alts = WITNESS_ALT.get(name, []) if table is WITNESS else []
+    return rng.choice([table[name]] + alts) if alts and rng.random() < 0.5 \
+        else table[name]
 
 
 def fmt_sec(rng, nums, colon=True):
@@ -200,7 +219,7 @@ def _gen_desc_once(rng):
                          "TR_desc_S", "S_desc_TR"))
     n_tr = rng.choice((1, 1, 1, 2, 2, 3))
     trs = gen_twprge_nums(rng, n_tr)
-    style = rng.randrange(10) if rng.random() < 0.6 else 0
+    style = rng.randrange(12) if rng.random() < 0.6 else 0
     if rng.random() < 0.05:
         style = 9
     nl = rng.choice(("\n", "\n", " ", ", "))
